@@ -64,7 +64,12 @@ pub fn run(property: &str, tier: &str) -> i32 {
                 crate::e2_oracles::explore_c11(&rep, false);
                 states += rep.get("family_states");
                 transitions += rep.get("family_transitions");
-                rule.push_str("; plus every info line of the searches of the complete KQK/KRK families, the back-rank family and the expiry sweeps on mate-in-one roots (won and lost positions, mate scores of both signs)");
+                // the first PV move of an info line is the root move's descriptor: for every root move of every state of
+                // S1 and the castling family that descriptor must name the move that produces the successor
+                let r = e1_posgraph::run(&rep, Focus::for_property("C18"));
+                states += r.states;
+                transitions += r.transitions;
+                rule.push_str("; plus every info line of the searches of the complete KQK/KRK families, the back-rank family and the expiry sweeps on mate-in-one roots (won and lost positions, mate scores of both signs); plus, for every root move of every state of the S1 reach graph and the castling family, the descriptor an info line would print as first PV move names exactly that move");
             }
             if property == "C07" {
                 let r3 = crate::e3_driver::run(&rep, false);
